@@ -141,3 +141,48 @@ def parse_dibs_sets_security_requirements(g, dibs):
         fams = secured[-1].families
         assert g.tunnelling_requires_secure == any(f.name == DIBServiceFamily.TUNNELING for f in fams)
         assert g.routing_requires_secure == any(f.name == DIBServiceFamily.ROUTING for f in fams)
+
+
+# ------------------------------------------------------------------ which discovery answers become descriptors
+
+from xknx.knxip import HPAI, KNXIPFrame, KNXIPHeader, KNXIPServiceType, SearchResponse, SearchResponseExtended  # noqa: E402
+
+
+class AnyFilter:
+    def match(self, gateway):
+        ghost("matched").append(gateway)
+        return True
+
+
+def _parse_dibs_recorder(self, dibs):
+    """parse_dibs is proved above; here only what reaches it matters."""
+    ghost("parsed").append(list(dibs))
+
+
+SCANNER = Obj(GatewayScanner, scan_filter=Const(AnyFilter()), found_gateways=Const(None), stop_on_found=None)
+RESPONSE_DIBS = Choice(ListOf(), ListOf(SUPPORTED), ListOf(SUPPORTED, SUPPORTED))
+
+
+@lemma("C46", params=dict(sc=SCANNER, dibs=RESPONSE_DIBS, extended=Bool()), stubs=[(GatewayDescriptor, "parse_dibs", _parse_dibs_recorder)], max_paths=60000)
+def legacy_answers_of_core_v2_devices_never_become_descriptors(sc, dibs, extended):
+    """GatewayScanner._response_rec_callback: a non-extended SearchResponse carries no secured-service
+    information, so a descriptor built from it looks unsecured. For a device that announces KNXnet/IP Core
+    version 2 or higher (it also answers the extended search, with its secured families) that legacy
+    answer must never produce a descriptor; every other answer produces exactly one descriptor from
+    exactly the DIBs received."""
+    sc.found_gateways = {}
+    ep = HPAI(ip_addr="10.1.1.1", port=3671)
+    body = (SearchResponseExtended if extended else SearchResponse)(control_endpoint=ep)
+    body.dibs = dibs
+    hdr = KNXIPHeader()
+    hdr.service_type_ident = KNXIPServiceType.SEARCH_RESPONSE_EXTENDED if extended else KNXIPServiceType.SEARCH_RESPONSE
+    frame = KNXIPFrame(header=hdr, body=body)
+    transport = Holder()
+    transport.local_addr = ("10.1.1.2", 0)
+    sc._response_rec_callback(frame, ep, transport, interface="eth0")
+    first_supported = next((d for d in dibs if isinstance(d, DIBSuppSVCFamilies)), None)
+    core_v2 = first_supported is not None and any(f.name == DIBServiceFamily.CORE and f.version >= 2 for f in first_supported.families)
+    if not extended and core_v2:
+        assert ghost("parsed") == [] and len(sc.found_gateways) == 0
+    else:
+        assert ghost("parsed") == [list(dibs)] and len(sc.found_gateways) == 1
